@@ -1119,8 +1119,27 @@ class WorkflowConductor(object):
                     staged_next_task["run_on_fail"] = True
 
         # Process the task event using the workflow state machine and update the workflow status.
+        prev_workflow_status = self.get_workflow_status()
         task_ex_event = events.TaskExecutionEvent(task_id, route, task_state_entry["status"])
         machines.WorkflowStateMachine.process_event(self.workflow_state, task_ex_event)
+
+        # If the task event itself puts the workflow in pausing or canceling (i.e. the task is
+        # pending or it is canceled on the provider side), then push the status change to the
+        # active tasks the same way a workflow status change request does. Otherwise, a with
+        # items task is never told to stop, get_next_tasks returns no more items for it, and
+        # the workflow stays in pausing or canceling with nothing left to report.
+        workflow_status = self.get_workflow_status()
+
+        if workflow_status != prev_workflow_status and workflow_status in [
+            statuses.PAUSING,
+            statuses.CANCELING,
+        ]:
+            wf_ex_event = events.WorkflowExecutionEvent(workflow_status)
+
+            for _, active_task in self.workflow_state.get_tasks_by_status(statuses.ACTIVE_STATUSES):
+                machines.TaskStateMachine.process_event(self.workflow_state, active_task, wf_ex_event)
+
+            machines.WorkflowStateMachine.process_event(self.workflow_state, wf_ex_event)
 
         # Process any engine commands in the queue.
         while not engine_event_queue.empty():
